@@ -346,7 +346,7 @@ def _apply_substs(src, ed, blk, log):
                     k += 1   # `x::<pattern>`: the pattern is the tail of a longer path, a different item
                     continue
                 a, b = sig[k].start, sig[k + len(pat) - 1].end
-                if any(not (b <= x or a >= y) for x, y, _, tg in ed.ed if y > x and tg == 'R-subst'):
+                if any(not (b <= x or a >= y) for x, y, _, tg in ed.ed if y > x and tg in ('R-subst', 'R11', 'R15')):
                     k += 1   # already covered by an earlier (higher-priority) substitution
                     continue
                 ed.replace(a, b, to, 'R-subst')
@@ -369,7 +369,7 @@ def _body_rewrites(src, ed, lo, hi, loops, blk, log):
         annotate_closures(src, ed, lo, hi, blk.closures, log)
     rewrite_closure_tuple_params(src, ed, lo, hi, set(blk.closures.keys()), log)
     if blk.args.get('format') == 'fmt1':
-        rewrite_format(src, ed, lo, hi, log)
+        rewrite_format(src, ed, lo, hi, log, blk.substs)
     if blk.args.get('write') == 'shim':
         rewrite_write(src, ed, lo, hi, log)
     if blk.args.get('desugar_try'):
@@ -599,6 +599,84 @@ def lift_block(blk, log, meta, canary=False):
         header = blk.rest
         header = re.sub(r'\bfn\s+(\w+)', lambda m: 'fn ' + (m.group(1) + ('__canary' if canary else '')), header, count=1)
         log.append(f"R5 {src.rel}:{src.line_of(sig[lo].start)}-{src.line_of(sig[hi - 1].end)} initializer of `let {want}` in fn `{a['fn']}` lifted as `{header.strip()}`")
+    elif kind == 'quote':
+        # R17: the token text of a `quote!` / `quote_spanned!` invocation (code the macro emits into the user's crate) lifted as the
+        # body of a function whose parameters stand for the `#interpolations`. Selected inside fn (optionally inside the
+        # initializer of `let=NAME`), by ordinal `nth` among the invocations that follow the `after_nth`-th occurrence of `after=`.
+        rlo, rhi = fi.open_idx + 1, fi.close_idx
+        if a.get('let'):
+            want, found = a['let'], False
+            for i in range(fi.open_idx + 1, fi.close_idx):
+                if sig[i].kind == 'id' and sig[i].text == 'let':
+                    j = i + 1
+                    if sig[j].text == 'mut':
+                        j += 1
+                    if sig[j].text == want and sig[j + 1].text in ('=', ':'):
+                        k = j + 1
+                        while sig[k].text != '=':
+                            k += 1
+                        e = k + 1
+                        while not (sig[e].kind == 'p' and sig[e].text == ';'):
+                            if sig[e].kind == 'p' and sig[e].text in '([{':
+                                e = sig[e].mate
+                            e += 1
+                        rlo, rhi, found = k + 1, e, True
+                        break
+            if not found:
+                raise LiftError(f"{src.rel}: `let {want}` not found in fn `{a['fn']}`")
+        if a.get('after'):
+            from .rustlex import lex as _lex
+            pat = [t.text for t in _lex(a['after'], strict=False)[0]]
+            want_n, seen_n, pos = int(a.get('after_nth', 0)), 0, None
+            k = rlo
+            while k + len(pat) <= rhi:
+                if all(sig[k + j].text == pat[j] for j in range(len(pat))):
+                    if seen_n == want_n:
+                        pos = k + len(pat) - 1
+                        break
+                    seen_n += 1
+                k += 1
+            if pos is None:
+                raise LiftError(f"{src.rel}: `{a['after']}` #{want_n} not found in fn `{a['fn']}`")
+            rlo = pos
+        qs = [i for i in range(rlo, rhi - 2) if sig[i].kind == 'id' and sig[i].text in ('quote', 'quote_spanned') and sig[i + 1].text == '!' and sig[i + 2].text in '([{']
+        qn = int(a.get('quote_nth', 0))
+        if qn >= len(qs):
+            raise LiftError(f"{src.rel}: fn `{a['fn']}` has no quote! invocation #{qn} in the selected range")
+        qo = qs[qn] + 2
+        qc = sig[qo].mate
+        lo, hi = qo + 1, qc
+        if sig[qs[qn]].text == 'quote_spanned':
+            # skip `SPAN_EXPR =>`
+            j = lo
+            while j < hi and not (sig[j].text == '=' and sig[j + 1].text == '>'):
+                if sig[j].kind == 'p' and sig[j].text in '([{':
+                    j = sig[j].mate
+                j += 1
+            lo = j + 2
+        if a.get('expr'):
+            # only the `expr_nth`-th invocation of the macro named by expr= (e.g. `format!`) inside the template
+            mname = a['expr'].rstrip('!')
+            es = [j for j in range(lo, hi - 2) if sig[j].kind == 'id' and sig[j].text == mname and sig[j + 1].text == '!' and sig[j + 2].text in '([{']
+            en = int(a.get('expr_nth', 0))
+            if en >= len(es):
+                raise LiftError(f"{src.rel}: the selected quote! template has no `{mname}!` invocation #{en}")
+            lo, hi = es[en], sig[es[en] + 2].mate + 1
+        if lo >= hi:
+            raise LiftError(f"{src.rel}: empty quote! template")
+        ed = Edits(src, sig[lo].start, sig[hi - 1].end)
+        fmt_ranges = [(j, sig[j + 2].mate) for j in range(lo, hi - 2) if sig[j].kind == 'id' and sig[j].text in ('format', 'write', 'writeln') and sig[j + 1].text == '!' and sig[j + 2].text == '('] if (a.get('format') or a.get('write')) else []
+        for j in range(lo, hi):
+            if any(x < j < y for x, y in fmt_ranges):
+                continue   # inside a format!/write! invocation that R11/R15 replaces as a whole (they drop the `#` of their arguments)
+            if sig[j].kind == 'p' and sig[j].text == '#':
+                if sig[j + 1].kind != 'id':
+                    raise LiftError(f"{src.rel}:{src.line_of(sig[j].start)}: repetition / non-identifier interpolation in a lifted quote! template (outside R17)")
+                ed.replace(sig[j].start, sig[j].end, '', 'R17')
+        loops = [l for l in loops if lo <= l.kw_idx < hi]
+        header = blk.rest
+        header = re.sub(r'\bfn\s+(\w+)', lambda m: 'fn ' + (m.group(1) + ('__canary' if canary else '')), header, count=1)
+        log.append(f"R17 {src.rel}:{src.line_of(sig[lo].start)}-{src.line_of(sig[hi - 1].end)} quote! template in fn `{a['fn']}` lifted as `{header.strip()}` (interpolations become parameters)")
     elif kind in ('tail', 'loop'):
         if kind == 'tail':
             # statement `let [mut] V ... ;` at depth 1 of the body
@@ -774,7 +852,7 @@ def assemble(template_path, canary=False, extra_shims=None, havoc_decls=None, de
             segs.append(Seg(f'}}\n#[allow(unused_imports)] pub use {modname}::*;\n', tag='include'))
             meta['includes'].append('spec/' + val)
         else:
-            if degrade and val.kind in ('item', 'tail', 'loop', 'let') and (degrade is True or block_fn_name(val) in degrade):
+            if degrade and val.kind in ('item', 'tail', 'loop', 'let', 'quote') and (degrade is True or block_fn_name(val) in degrade):
                 # degraded mode: the ghost text (invariants, hints, ghost lets) no longer type-checks against the lifted code
                 # (e.g. a local changed its type): judge the function on requires/ensures alone; termination measures stay
                 for k2, sp in val.loops.items():
@@ -783,11 +861,11 @@ def assemble(template_path, canary=False, extra_shims=None, havoc_decls=None, de
                 val.proofs = []
                 val.args['_nodecr'] = '1'
                 _degraded_fns.append(block_fn_name(val))
-            if extra_shims and val.kind in ('item', 'tail', 'loop', 'let'):
+            if extra_shims and val.kind in ('item', 'tail', 'loop', 'let', 'quote'):
                 for k, v in extra_shims.items():
                     val.shim_methods.setdefault(k, v)
             try:
-                if canary and val.kind in ('item', 'tail', 'loop', 'let') and val.args.get('canary', '1') != '0':
+                if canary and val.kind in ('item', 'tail', 'loop', 'let', 'quote') and val.args.get('canary', '1') != '0':
                     s1 = lift_block(val, log, meta, canary=False)
                     dummy = {'functions': [], 'includes': []}
                     s2 = lift_block(val, [], dummy, canary=True)
@@ -796,7 +874,7 @@ def assemble(template_path, canary=False, extra_shims=None, havoc_decls=None, de
                 else:
                     segs.extend(lift_block(val, log, meta))
             except LiftError as e:
-                if val.kind in ('let', 'tail', 'loop') and val.args.get('optional', '1') != '0':
+                if val.kind in ('let', 'tail', 'loop', 'quote') and val.args.get('optional', '1') != '0':
                     # the anchor of one block lift is gone: the other functions of the unit are still judged; this block is undecided
                     names = [n for n, _ in val.requires + val.ensures if n]
                     meta.setdefault('lost_anchors', []).append({'msg': str(e), 'clauses': names})
